@@ -310,6 +310,15 @@ def _specific_yield(ctx, chk, rprog):
     fors = [n for n in ast.walk(cls_f.node) if isinstance(n, ast.For)]
     outer = [n for n in fors if not any(isinstance(p, ast.For) for p in _ancestors(n, cls_f.node))]
     inner = [n for n in fors if n not in outer]
+    # a quadrature routine in place of the layer sum: readable, and another discretisation
+    QUAD = ("trapezoid", "trapz", "simpson", "simps", "cumulative_trapezoid", "cumtrapz", "romb")
+    quads = [c for c in ast.walk(cls_f.node) if isinstance(c, ast.Call) and (full_call_name(mod, c) or dotted_name(c.func) or "").split(".")[-1] in QUAD]
+    if quads:
+        chk.ob("C16.O2", False, where_of(cls_f, quads[0]),
+               "the soil-layer sum is computed by %s: end layers get half weight (trapezoid) or other quadrature weights" % ast.unparse(quads[0].func),
+               "R reference: the sum over layers of dz[j] * (A(zu) - A(zl)) with every layer at full weight (midpoint sum on the layer centres)",
+               key="get_Sy_soil|quadrature", why="the published discretisation is the midpoint sum; with another rule the top layer's term is wrong by half its weight, which shows for wide microtopography")
+        return
     if len(outer) != 1 or len(inner) != 1:
         chk.indeterminate("C16.O2", where_of(cls_f, cls_f.node), "expected one loop over levels with one loop over cells inside")
         return
